@@ -25,6 +25,7 @@ type miniEval struct {
 	maps    map[string]map[int64]bool                // sets / maps held in plain variables, by key
 	dyn     func(x ast.Expr) string                  // dynamic type (last name component) of a type-switch operand
 	ctx     *core.Ctx                                // when set, calls of small pure module functions of integers are evaluated in place
+	tables  map[string][]ast.Expr                    // locals that name a row of a constant table
 	depth   int
 	lens    map[string]bool // variables that stand for a slice, valued by its LENGTH
 	steps   int             // loop iterations executed (bounded)
@@ -84,6 +85,13 @@ func (e *miniEval) expr(x ast.Expr) int64 {
 		// an element of a length-modelled slice is represented by its index
 		if e.lens[core.ExprStr(y.X)] {
 			return e.expr(y.Index)
+		}
+		if row, ok := e.tables[core.ExprStr(y.X)]; ok {
+			i := e.expr(y.Index)
+			if i >= 0 && i < int64(len(row)) {
+				return e.expr(row[i])
+			}
+			return e.fail("index out of the table row " + core.ExprStr(y))
 		}
 		return e.fail("index " + core.ExprStr(y))
 	case *ast.SelectorExpr:
@@ -145,6 +153,12 @@ func (e *miniEval) expr(x ast.Expr) int64 {
 			if e.lens[core.ExprStr(y.Args[0])] {
 				return e.env[core.ExprStr(y.Args[0])]
 			}
+			if row, ok := e.tables[core.ExprStr(y.Args[0])]; ok {
+				return int64(len(row))
+			}
+			if row, ok := e.tableRow(y.Args[0]); ok {
+				return int64(len(row))
+			}
 		}
 		if core.ExprStr(y.Fun) == "append" && len(y.Args) >= 1 && e.lens[core.ExprStr(y.Args[0])] && !y.Ellipsis.IsValid() {
 			return e.env[core.ExprStr(y.Args[0])] + int64(len(y.Args)-1)
@@ -162,7 +176,7 @@ func (e *miniEval) expr(x ast.Expr) int64 {
 		}
 		// a conversion between integer types
 		if tv, ok := e.pk.TypesInfo.Types[y.Fun]; ok && tv.IsType() && len(y.Args) == 1 {
-			if b, isB := tv.Type.Underlying().(*types.Basic); isB && b.Info()&types.IsInteger != 0 {
+			if b, isB := tv.Type.Underlying().(*types.Basic); isB && b.Info()&(types.IsInteger|types.IsString) != 0 {
 				return e.expr(y.Args[0])
 			}
 		}
@@ -192,6 +206,14 @@ func (e *miniEval) assign(lhs ast.Expr, tok token.Token, rhs ast.Expr) {
 		return
 	}
 	if id.Name == "_" {
+		return
+	}
+	// a row of a constant table
+	if row, ok := e.tableRow(rhs); ok {
+		if e.tables == nil {
+			e.tables = map[string][]ast.Expr{}
+		}
+		e.tables[id.Name] = row
 		return
 	}
 	// a slice is represented by its length
@@ -265,6 +287,19 @@ func (e *miniEval) run(stmts []ast.Stmt) (status int, rets []int64) {
 		case *ast.AssignStmt:
 			if len(s.Lhs) == 2 && len(s.Rhs) == 1 {
 				if ix, isIx := ast.Unparen(s.Rhs[0]).(*ast.IndexExpr); isIx {
+					if entries, ok := e.mapLit(ix.X); ok {
+						want := e.expr(ix.Index)
+						found := false
+						for _, kv := range entries {
+							if e.expr(kv.Key) == want {
+								found = true
+							}
+						}
+						if id, isID := s.Lhs[1].(*ast.Ident); isID && id.Name != "_" {
+							e.env[id.Name] = b2i(found)
+						}
+						break
+					}
 					if m, ok := e.maps[core.ExprStr(ix.X)]; ok {
 						if id, isID := s.Lhs[1].(*ast.Ident); isID && id.Name != "_" {
 							e.env[id.Name] = b2i(m[e.expr(ix.Index)])
@@ -603,6 +638,20 @@ func (e *miniEval) rangeElems(x ast.Expr) ([]int64, bool) {
 			return vals, true
 		}
 	}
+	if row, ok := e.tables[core.ExprStr(x)]; ok {
+		out := make([]int64, 0, len(row))
+		for _, el := range row {
+			out = append(out, e.expr(el))
+		}
+		return out, true
+	}
+	if row, ok := e.tableRow(x); ok {
+		out := make([]int64, 0, len(row))
+		for _, el := range row {
+			out = append(out, e.expr(el))
+		}
+		return out, true
+	}
 	if e.lens[core.ExprStr(x)] {
 		n := e.env[core.ExprStr(x)]
 		out := make([]int64, 0, n)
@@ -668,4 +717,56 @@ func (e *miniEval) inlinePure(call *ast.CallExpr) (int64, bool) {
 		return 0, false
 	}
 	return rets[0], true
+}
+
+// mapLit resolves an expression to the entries of a constant map: a map composite literal, or a
+// package-level variable initialised with one.
+func (e *miniEval) mapLit(x ast.Expr) ([]*ast.KeyValueExpr, bool) {
+	x = ast.Unparen(x)
+	if id, ok := x.(*ast.Ident); ok {
+		if init := core.PkgVarInit(e.pk, id.Name); init != nil {
+			x = ast.Unparen(init)
+		}
+	}
+	cl, ok := x.(*ast.CompositeLit)
+	if !ok {
+		return nil, false
+	}
+	if t := core.TypeOf(e.pk, cl); t == nil {
+		return nil, false
+	} else if _, isMap := t.Underlying().(*types.Map); !isMap {
+		return nil, false
+	}
+	var out []*ast.KeyValueExpr
+	for _, el := range cl.Elts {
+		kv, ok := el.(*ast.KeyValueExpr)
+		if !ok {
+			return nil, false
+		}
+		out = append(out, kv)
+	}
+	return out, true
+}
+
+// tableRow resolves `table[key]` on a constant map of slices to the elements of the selected row
+// (an absent key selects the empty row).
+func (e *miniEval) tableRow(x ast.Expr) ([]ast.Expr, bool) {
+	ix, ok := ast.Unparen(x).(*ast.IndexExpr)
+	if !ok {
+		return nil, false
+	}
+	entries, ok := e.mapLit(ix.X)
+	if !ok {
+		return nil, false
+	}
+	want := e.expr(ix.Index)
+	for _, kv := range entries {
+		if e.expr(kv.Key) == want {
+			if cl, ok := ast.Unparen(kv.Value).(*ast.CompositeLit); ok {
+				return cl.Elts, true
+			}
+			return nil, false
+		}
+	}
+	return []ast.Expr{}, true
 }
